@@ -15,6 +15,10 @@ pub open spec fn blen(s: Seq<char>) -> nat
     if s.len() == 0 { 0 } else { blen(s.drop_last()) + clen(s.last()) }
 }
 
+/// byte offset of char index k
+#[verifier::opaque]
+pub open spec fn boff(input: Seq<char>, k: int) -> nat { blen(input.take(k)) }
+
 /// the (byte index, char) pairs CharIndices yields for text `s` whose first char is at byte `base`
 pub open spec fn ci_seq(s: Seq<char>, base: nat) -> Seq<(usize, char)> {
     Seq::new(s.len(), |i: int| ((base + blen(s.take(i))) as usize, s[i]))
